@@ -2,7 +2,8 @@
 from kv_engine import *
 
 MODULE = "Feox.Props.C01"
-THEOREMS = ['Feox.C01.write_iff_newer', 'Feox.C01.reads_latest', 'Feox.C01.delete_effect', 'Feox.C01.error_preserves_contents', 'Feox.C01.error_preserves_view', 'Feox.Kv.doInsert_cases', 'Feox.Kv.step_acc']
+THEOREMS = ['Feox.C01.write_iff_newer', 'Feox.C01.reads_latest', 'Feox.C01.delete_effect', 'Feox.C01.error_preserves_contents', 'Feox.C01.error_preserves_view', 'Feox.Kv.doInsert_cases', 'Feox.Kv.step_acc',
+            'Feox.C01.tiers_invisible', 'Feox.C01.reads_from_any_tier', 'Feox.Kv.Tiers.step_inv', 'Feox.Kv.Tiers.read_abs', 'Feox.Kv.Tiers.reach_available', 'Feox.Kv.Tiers.reach_cached_on_disk', 'Feox.Kv.Tiers.reach_monotone']
 
 
 def run(ctx):
@@ -10,4 +11,5 @@ def run(ctx):
         "the reference map is Lean Feox.Kv.Spec; its agreement with the real store is differential testing over the generated sequences",
         "json-patch/serde_json results, the wall clock and the key->clock-shard hash are inputs of the model (recorded per call by the harness)",
         "disk reads are assumed faithful here (C05/C10 cover the bytes); concurrency is outside this engine (Conc engine)",
-    ])
+        "tier model Feox.Kv.Tiers: generations, resident bytes, extents and generation-tagged cache entries with the moves flush / offload / cache fill / eviction / retirement; tied to the code as a monitor over the hook verif_tiers after every call (the observed moves must be moves of the model, all copies of a generation must agree); a TTL-only generation borrowing its predecessor's extent is observed as 'on device'",
+    ], tiers=True)
